@@ -3,6 +3,7 @@ from gen import *
 import vlib, elfgen, filegen
 
 LEVEL = "proof"
+EXTRA_VO = ["Proofs/ErrFmtP.vo"]      # Display of ParseError: rendering round-trip (not one of the property's theorems)
 RULE = ("ident op and open (bytes op) for all 256 values of EI_DATA, EI_CLASS, EI_VERSION, single- and multi-byte magic "
         "corruptions x {le,be,any,native}; full-content equivalence any vs fixed spec over generated files (same query set on both). "
         "The projection keeps error kind and payload of the four ident errors. Non-trivial: a case whose result is not a slice-read error.")
@@ -20,7 +21,14 @@ def base_file(rng, cl, little):
 
 
 def gen(rng, tier):
-    cases = []
+    cases = ["endian %s" % sp for sp in SPECS]      # is_little / is_big of every spec value
+    # Display / Error::source of every ParseError variant, payloads at the width boundaries
+    for k in range(16):
+        widths = {0: 8, 1: 8, 2: 8, 7: 32, 8: 32}.get(k, 64)
+        vals = [0, 1, 9, 10, 15, 16, 255, 256, 0xabcdef, 2**31, 2**32 - 1, 2**63, 2**64 - 1]
+        for _ in range(6 if tier == "quick" else 200):
+            a, b, c, d = [rng.choice(vals + [rng.randrange(2**64)]) % (1 << widths) for _ in range(4)]
+            cases.append("errfmt %d %d %d %d %d" % (k, a, b, c, d))
     files = {(cl, little): base_file(rng, cl, little) for cl in (32, 64) for little in (True, False)}
     for (cl, little), (data, meta, info) in files.items():
         if tier == "quick" and (cl, little) not in ((64, True), (32, False)):
@@ -106,6 +114,11 @@ def oracle(case, impl, model):
     if why:
         return why
     t = case.split(" ")
+    if t[0] == "errfmt":
+        return None              # equality with the model (default oracle above) is the whole check
+    if t[0] == "endian":
+        want = "[1 0]" if t[1] in ("le", "anyle", "native") else "[0 1]"
+        return None if impl == want else "is_little/is_big of %s = %s, expected %s" % (t[1], impl, want)
     fam, data = t[1], bytes.fromhex(t[2][1:])
     exp = expected_ident(fam, data[:16] if t[0] == "bytes" else data)
     pi = project(impl)
